@@ -66,7 +66,7 @@ def _ro(d):
 def run(ctx):
     q = ctx.tier == 'quick'
     variants = ['tie', 'case_tie', 'pad_tie', 'blif_import', 'sani', 'memen', 'memen_samedata', 'regs_tie', 'outs_tie', 'mems_same_name', 'rom_clones',
-                'mems_init', 'regs_same_next']
+                'mems_init', 'regs_same_next', 'cond_fsm']
     fam = [d for d in designs.family('quick', 0) if d['name'] in
            ('mixed_alu', 'mem_two_writes', 'regs_reset', 'shared_subexp', 'rom_func', 'fanout', 'slices')]
     variants += [json.dumps(d, sort_keys=True) for d in fam]
